@@ -56,6 +56,15 @@ Lemma config_window now w :
 Proof. reflexivity. Qed.
 
 
+(* the four activity answers are functions of the clock and the window only: replacing the
+   stored members and the member count (by anything, the empty list included) changes none *)
+Lemma activity_ignores_members now w num mem :
+  q_active now (set_members w num mem) = q_active now w /\
+  q_started now (set_members w num mem) = q_started now w /\
+  q_ended now (set_members w num mem) = q_ended now w /\
+  snd (q_config now (set_members w num mem)) = snd (q_config now w).
+Proof. repeat split; reflexivity. Qed.
+
 Section Sched.
 Variable valid : addr -> bool.
 Variable self : addr.
